@@ -9,6 +9,12 @@ CLAIMED = {
  "C09": ("property-based testing: tagged-message permutation/order oracle over generated source families",
          "Generated-input exploration of both merge iterators and their single-source variants with tie-rich and empty sources; oracle is a validity predicate (permutation, per-source order, numbering, ordered output).",
          "trusted: std collections; sources numbered from the start index for the single source short cut as documented", "4/C09"),
+ "C02": ("property-based testing: write/parse round trip and idempotent normal form on generated messages",
+         "Generated-input exploration: every message parsed from generated streams is written with to_write, re-parsed and re-written; field equality, exact consumption, byte-identical second export and order-preserving re-read of the concatenated export are asserted.",
+         "trusted: the real parser as source of input messages (decided separately by C01)", "4/C02"),
+ "C18": ("property-based testing: three encoders vs. reference encoder/decoder model, canonical-text oracle, truncation/corruption prefix oracle",
+         "Generated-input exploration over typed argument lists in both byte orders through the harness encoder, payload_from_args and the serde Serializer; decode agreement (type info, raw bytes), canonical text (floats must parse back bit-exactly) and prefix-decoding of truncated/corrupted payloads.",
+         "trusted: String::from_utf8_lossy, encoding_rs WINDOWS_1252, Rust float parsing", "4/C18"),
 }
 PENDING = {}
 def main():
